@@ -11,6 +11,13 @@ CLAIMED = {
         note="full: the modelled code is the whole mechanism. Trusted: Coq kernel, translators gen_speech/gen_dicgrammar, peg 0.8 semantics as interpreted in Dic/PegAlt.v, the harness; rows are single characters.",
         ref="6/C10"),
 }
+CLAIMED["C12"] = dict(
+    technique="Coq proof (alignment by construction, finite table facts by computation over the regenerated conjugation/guess tables) + correspondence",
+    text="Kernel-checked theorems: every form is stem++okuri / reading++okuri with one okurigana of the rule (k-irregular: reading's last kana replaced); for EVERY row of the "
+         "table regenerated from speech.rs the okurigana start in the row or are a euphonic variant and the class's core forms are present (computed over the finite table, bound = the table); "
+         "every class guess_form can return for ANY character conjugates; new_guessed accepts every well-formed pair. Conjugation, guess_form and new_guessed are run against the model.",
+    note="full. Trusted: Coq kernel, translator gen_conj, the hand-written gojuon/euphonic/core-form vocabulary (Dic/Gojuon.v) as the specification, UTF-8 length by range, rows are single characters.",
+    ref="6/C12")
 PENDING = {}
 
 def main():
